@@ -31,6 +31,7 @@ func cmdSweep(args []string) int {
 	req := fs.String("req", "0,1", "")
 	tx := fs.String("tx", "0:0", "ntx:txmask,...")
 	apis := fs.String("apis", "0,1,2,3,4,5,7,8,9", "")
+	extra := fs.String("extra", "", "extra params k=v,...")
 	want := fs.String("want", "", "")
 	budget := fs.Int("budget", 300, "")
 	fs.Parse(args)
@@ -46,6 +47,11 @@ func cmdSweep(args []string) int {
 		w = strings.Split(*want, ",")
 	}
 	jobs := stepSweep(*n, parseInts(*roles), parseInts(*amev), parseInts(*mx), parseInts(*req), txc, parseInts(*apis), w, *budget)
+	for _, j := range jobs {
+		for k, v := range parseParams(*extra) {
+			j.Params[k] = v
+		}
+	}
 	p, err := loadProgram(".")
 	if err != nil {
 		fmt.Fprintln(os.Stderr, err)
